@@ -2,6 +2,32 @@
 SOURCE_COMMITS = []
 NOT_APPLICABLE = {}
 CHECKS = {
+ "C07": {
+  "text": "BobArtifacts.tla (two workspaces at different locations with independently edited project states - scripts, variable, "
+          "dependency sources, host fingerprint, relocatability - sharing one archive; every download mode; upload on/off; "
+          "prune on changed variant-/build-id; never-overwrite upload) is model-checked exhaustively within small bounds for "
+          "DownloadEqLocal, FullReuse, ArchiveSound and NeverOverwrite; TLC counterexamples of single weakenings of the "
+          "build-id and download mechanism and TLC-simulated behaviours are replayed with two real workspaces, a real file "
+          "archive and real `bob dev --download MODE [--upload]` runs; oracle = real clean local build, statistics line, "
+          "bucket test of real build-ids against the structural ones. Bounded model checking plus conformance, not a proof.",
+  "design_ref": "DESIGN.md section 4, C07 and 4.22",
+  "note": "file archive backend; import SCM sources (exact live build-ids: wrong predictions not exercised); host fingerprint emulated by a fingerprintScript printing a harness-controlled file; build step abstracted to the contract checked by C01/C05",
+  "technique": "TLA+ spec + TLC exhaustive check; counterexample-directed and simulated behaviours replayed into real bob runs on two workspaces sharing a file archive; oracle real clean local build",
+ },
+ "C20": {
+  "text": "JenkinsJobs.tla (sanitize, job population, build order) is model-checked exhaustively over all labelled package DAGs "
+          "<=4 nodes (topologically labelled 5 and 6 nodes, random walks to 6) x package names x isolate sets x root lists under "
+          "Bob's own input rules; unique names, acyclicity after every merge, exactly-one-job and direct upstream edges are "
+          "invariants. Every TLC case is replayed into the real JobNameCalculator/_genJenkinsJobs/genJenkinsBuildOrder "
+          "(duck-typed), a seed-chosen subset as real recipe projects through genJenkinsJobs, and the embedded job "
+          "specification (XML -> exec.Spec -> PartialIR) is compared field by field and by recomputed variant-/build-ids with "
+          "the live steps; thorough additionally executes the jobs with `bob _jexec` on an emulated node. Bounded model "
+          "checking of the design plus conformance on generated cases; not a proof of the code.",
+  "design_ref": "DESIGN.md section 4, C20",
+  "note": "package names are single-character components joined by '-' (no name-mangling collisions, no aliases); duck-typed steps mirror Step.getAllDepSteps(); placeholder steps not compared; node emulation without sandbox, SCMs or a Jenkins server",
+  "technique": "TLA+ spec + TLC exhaustive check and simulation; TLC-enumerated cases replayed into the real job-name calculator, job generator and build-order code; generated real recipe projects; IR round-trip and digest comparison; emulated build node",
+ },
+
  "C08": {
   "text": "ArtifactPack.tla is model-checked exhaustively (tree algebra up to 4 nodes; extractor state machine over a hostile "
           "member grammar with invariant Confined; corruption classes x reader outcomes x builder verification with invariant "
